@@ -815,6 +815,13 @@ func (p *Proxy) roundTrip(ctx *Context, req *http.Request) (*http.Response, erro
 		return proxyutil.NewResponse(200, nil, req), nil
 	}
 
+	if _, ok := req.Header["User-Agent"]; !ok {
+		// The client sent no User-Agent: keep net/http's transport from
+		// inventing "Go-http-client/1.1" on its behalf (an empty value is not
+		// written).
+		req.Header.Set("User-Agent", "")
+	}
+
 	return p.roundTripper.RoundTrip(req)
 }
 
